@@ -21,7 +21,7 @@ def occAttrs (o : Occurs) : List XAttr :=
 mutual
 def Particle.toX (f : SchemaFile) : Particle → XNode
   | .elem n t o => .elem "element" ([⟨"name", none, n⟩, ⟨"type", none, renderTypeRef f t⟩] ++ occAttrs o) [] none []
-  | .ref ns n o => .elem "element" ([⟨"ref", none, prefixOf f ns ++ ":" ++ n⟩] ++ occAttrs o) [] none []
+  | .ref ns n o => .elem "element" ([⟨"ref", none, qname f ns n⟩] ++ occAttrs o) [] none []
   | .seq o ps => .elem "sequence" (occAttrs o) [] none (particlesToX f ps)
   | .choice o ps => .elem "choice" (occAttrs o) [] none (particlesToX f ps)
 def particlesToX (f : SchemaFile) : List Particle → List XNode
